@@ -257,4 +257,370 @@ theorem C13_negotiate_best (ae : AE) (sup : List Coding) (c : Coding)
       (mem_sortStable.mpr (mem_explicitQs.mp hq')) (by simp [hpos, hp'])
     exact q_le_of_score_le this
 
+/-! ## F3: the code before the `fix:` commit (kept as a kernel-checked counter-example) -/
+
+/-- Before the fix `Accept-Encoding: *, identity;q=0` negotiated `identity`, which the header
+forbids: `C13_negotiate_permitted` is false of the pre-fix code. -/
+theorem witness_F3_prefix :
+    negotiatePreFix [⟨.any, 1000⟩, ⟨.specific .identity, 0⟩] supported = some .identity ∧
+    ¬ permits [⟨.any, 1000⟩, ⟨.specific .identity, 0⟩] .identity := by decide
+
+/-- …and the fixed code answers 406 on the same header. -/
+theorem witness_F3_fixed :
+    negotiate [⟨.any, 1000⟩, ⟨.specific .identity, 0⟩] supported = none := by decide
+
+/-- `negotiate` answers `None` (⇒ 406) only when the header really excludes the unencoded
+representation and lists no supported coding with a non-zero weight. -/
+theorem C13_not_acceptable_justified (ae : AE) (sup : List Coding) (hs : sup ≠ [])
+    (h : negotiate ae sup = none) :
+    ¬ permits ae .identity ∧ ∀ c ∈ sup, ∀ q ∈ explicitQs ae c, q = 0 := by
+  unfold negotiate negotiateWith at h
+  split at h
+  · rename_i he; exact absurd (List.isEmpty_iff.mp he) hs
+  · split at h
+    · simp at h
+    · rename_i he
+      have hr : rankedItems ae = sortStable ae := rankedItems_of_ne_nil (by simpa using he)
+      simp only [hr] at h
+      split at h
+      · simp at h
+      · split at h
+        · simp at h
+        · rename_i hnot
+          split at h
+          · simp at h
+          · rename_i hid
+            refine ⟨fun hp => hid ((identityAcceptable_iff ae).mpr hp), ?_⟩
+            intro c hc q hq
+            apply Nat.eq_zero_of_not_pos
+            intro hpos
+            have hm' : (⟨.specific c, q⟩ : QItem) ∈ (sortStable ae).filter (fun qi => decide (qi.q > 0)) := by
+              simp only [List.mem_filter, decide_eq_true_eq]
+              exact ⟨mem_sortStable.mpr (mem_explicitQs.mp hq), hpos⟩
+            have hp' : matchesSupported sup ⟨.specific c, q⟩ = true := by simp [matchesSupported, hc]
+            cases hf : ((sortStable ae).filter (fun qi => decide (qi.q > 0))).find? (matchesSupported sup) with
+            | none => exact absurd hp' (by simpa using List.find?_eq_none.mp hf _ hm')
+            | some qi =>
+              obtain ⟨c', hi, _, _, _⟩ := matched_spec hf
+              exact absurd (by cases qi; simp_all) (hnot c' qi.q)
+
+/-! ## Codec law -/
+
+variable {σ : Type}
+
+/-- The law assumed of a compression library and its decoder `D`: whatever chunks are written
+(each followed by a `take`, as `poll_next` does on both of its paths), the bytes taken, followed
+by the `finish` output, decode to the concatenation of the chunks. -/
+def Lossless (c : Codec σ) (D : Bytes → Option Bytes) : Prop :=
+  ∀ xs : List Bytes, D (encRest c c.init xs) = some xs.flatten
+
+theorem toy_encRest (s : ToyState) (xs : List Bytes) :
+    encRest toyCodec s xs =
+      s.outb ++ s.pend ++ xs.flatten ++ [UInt8.ofNat ((s.total + xs.flatten.length) % 256)] := by
+  induction xs generalizing s with
+  | nil => simp [encRest, toyCodec]
+  | cons x t ih =>
+    rw [encRest, ih]
+    simp only [toyCodec]
+    split <;> simp [Nat.add_assoc]
+
+/-- the law is satisfiable: the store-codec of the line driver obeys it (so the theorems below
+are not vacuous) -/
+theorem toy_lossless : Lossless toyCodec toyDecode := by
+  intro xs
+  rw [toy_encRest]
+  simp [toyCodec, toyDecode]
+
+/-! ## The body stream -/
+
+/-- **C13_stream_lossless**: for every codec obeying the law, every chunking of every body, every
+placement of `Pending`s, every completion schedule of the blocking tasks and *every* split between
+the in-place and the blocking path: if the handler's body does not fail, the encoder's stream ends
+with `Ready(None)` and the emitted chunks decode to exactly the handler's bytes. -/
+theorem C13_stream_lossless (inPlace : Bytes → Bool) (c : Codec σ) (D : Bytes → Option Bytes)
+    (hl : Lossless c D) (cd : Coding) (body : List BodyEv) (joins : List Nat)
+    (hb : hasErr body = false) (fuel : Nat) (hf : fuelFor (initEnc c (.encode cd)) body joins ≤ fuel) :
+    D (outChunks (driveAt inPlace c fuel (initEnc c (.encode cd)) body joins)).flatten
+        = some (chunksOf body).flatten ∧
+    (driveAt inPlace c fuel (initEnc c (.encode cd)) body joins).getLast? = some .done := by
+  have hmu : mu (initEnc c (.encode cd)) body joins < fuel := by
+    simp only [fuelFor, initEnc] at hf; simp only [mu, initEnc]; omega
+  obtain ⟨h1, h2⟩ := drive_rem inPlace c fuel _ body joins hb hmu
+  refine ⟨?_, h2⟩
+  rw [h1]
+  simp only [rem, initEnc, Bool.false_eq_true, ↓reduceIte]
+  exact hl _
+
+example : hasErr [.chunk [1, 2], .pending, .chunk [], .chunk [3]] = false := by decide
+
+/-- the theorem instantiated with the code's own split and the concrete store-codec -/
+theorem C13_stream_lossless_code (cd : Coding) (body : List BodyEv) (joins : List Nat)
+    (hb : hasErr body = false) :
+    toyDecode (outChunks (drive toyCodec (fuelFor (initEnc toyCodec (.encode cd)) body joins)
+        (initEnc toyCodec (.encode cd)) body joins)).flatten = some (chunksOf body).flatten :=
+  (C13_stream_lossless inPlaceCode toyCodec toyDecode toy_lossless cd body joins hb _ (Nat.le_refl _)).1
+
+/-- **C13_terminates**: from *any* encoder state, for any body script (including failing ones)
+and any schedule, the stream ends — `Ready(None)` or an error — within
+`2·|body events| + Σ joins + 3` polls; `fuelFor` polls are always enough. -/
+theorem C13_terminates (inPlace : Bytes → Bool) (c : Codec σ) (s : Enc σ) (body : List BodyEv)
+    (joins : List Nat) (fuel : Nat) (hf : fuelFor s body joins ≤ fuel) :
+    ((driveAt inPlace c fuel s body joins).getLast? = some .done ∨
+      (driveAt inPlace c fuel s body joins).getLast? = some .err) ∧
+    (driveAt inPlace c fuel s body joins).length ≤ 2 * body.length + joins.sum + 3 := by
+  have hmu : mu s body joins < fuel := by simp only [fuelFor] at hf; simp only [mu]; omega
+  obtain ⟨h1, h2⟩ := drive_terminates inPlace c fuel s body joins hmu
+  refine ⟨h1, ?_⟩
+  have : mu s body joins ≤ 2 * body.length + joins.sum + 2 := by
+    simp only [mu]; split <;> split <;> omega
+  omega
+
+/-- **C13_end_stable**: once `poll_next` has answered `Ready(None)` it keeps answering
+`Ready(None)` (whatever the environment would answer). -/
+theorem C13_end_stable (inPlace : Bytes → Bool) (c : Codec σ) (s : Enc σ) (body : List BodyEv)
+    (joins : List Nat) (h : (pollNextAt inPlace c s body joins).1 = .done) (joins' : List Nat) :
+    (pollNextAt inPlace c (pollNextAt inPlace c s body joins).2.1
+      (pollNextAt inPlace c s body joins).2.2.1 joins').1 = .done :=
+  pollNext_done_stable inPlace c s body joins h joins'
+
+/-- **C13_error_propagated**: if the handler's body fails, the encoded stream fails too (it
+never looks complete), provided the encoder has not already finished (`eof` ⇒ no body left). -/
+theorem C13_error_propagated (inPlace : Bytes → Bool) (c : Codec σ) (s : Enc σ) (body : List BodyEv)
+    (joins : List Nat) (hs : s.eof = false) (hb : hasErr body = true) (fuel : Nat)
+    (hf : fuelFor s body joins ≤ fuel) :
+    (driveAt inPlace c fuel s body joins).getLast? = some .err := by
+  have hmu : mu s body joins < fuel := by simp only [fuelFor] at hf; simp only [mu]; omega
+  exact drive_err inPlace c fuel s body joins hs hb hmu
+
+/-! ## Pass-through -/
+
+/-- the responses that must not be re-encoded -/
+def MustPass (encoding : Coding) (h : Head) (size : BodySize) : Prop :=
+  hContains h.headers "content-encoding" = true ∨ h.status = 101 ∨ h.status = 204 ∨ h.status = 206 ∨
+    size = .none ∨ size = .sized 0 ∨ encoding = .identity
+
+/-- **C13_passthrough** (head): already encoded / 101 / 204 / 206 / no body / empty body /
+identity negotiated ⇒ `Encoder::response` leaves the head untouched, installs no compressor and
+reports the body's own size. -/
+theorem C13_passthrough (encoding : Coding) (h : Head) (size : BodySize) (hp : MustPass encoding h size) :
+    (response encoding h size).1 = h ∧ (∀ c, (response encoding h size).2 ≠ .encode c) ∧
+    encSize (response encoding h size).2 size = size := by
+  unfold response
+  split
+  · simp [encSize]
+  · simp [encSize]
+  · rename_i hn h0
+    have hse : shouldEncode encoding h = false := by
+      rcases hp with hp | hp | hp | hp | hp | hp | hp
+      · simp [shouldEncode, hp]
+      · simp [shouldEncode, hp]
+      · simp [shouldEncode, hp]
+      · simp [shouldEncode, hp]
+      · exact absurd hp hn
+      · exact absurd hp h0
+      · simp [shouldEncode, hp]
+    simp [hse, encSize]
+
+example : MustPass .gzip ⟨206, [("content-range", "bytes 0-1/10")], false⟩ (.sized 2) := by
+  simp [MustPass]
+
+/-- **C13_passthrough_stream**: without a compressor (`Mode.plain`) the stream hands over the
+body's chunks one for one — same bytes, same boundaries, empty chunks included — and ends as the
+body ends: `Ready(None)`, or the error if the body fails (chunks before the failure delivered). -/
+theorem C13_passthrough_stream (inPlace : Bytes → Bool) (c : Codec σ) (body : List BodyEv)
+    (joins : List Nat) (fuel : Nat) (hf : fuelFor (initEnc c .plain) body joins ≤ fuel) :
+    outChunks (driveAt inPlace c fuel (initEnc c .plain) body joins) = chunksOf body ∧
+    (driveAt inPlace c fuel (initEnc c .plain) body joins).getLast?
+      = some (if hasErr body then .err else .done) := by
+  have : 2 * body.length < fuel := by simp only [fuelFor, initEnc] at hf; simp at hf; omega
+  exact drive_plain inPlace c fuel body joins this
+
+/-- the two constructors that never poll the body: `Encoder::none()` / `Encoder::empty()` -/
+theorem C13_passthrough_nobody (inPlace : Bytes → Bool) (c : Codec σ) (m : Mode)
+    (hm : m = .none ∨ m = .empty) (b : RespBody) (joins : List Nat) (fuel : Nat) :
+    encBodyEvs m b = [] ∧ driveAt inPlace c (fuel + 1) (initEnc c m) (encBodyEvs m b) joins = [.done] := by
+  rcases hm with rfl | rfl <;> simp [encBodyEvs, initEnc, driveAt, pollNextAt]
+
+/-! ## Head of an encoded response -/
+
+/-- **C13_head**: when a compressor is installed, the label is the negotiated coding (exactly one
+`Content-Encoding` value), `Vary: accept-encoding` is appended after the handler's own `Vary`
+values, every other header and the status are untouched, chunking is re-enabled and the body's
+size becomes `Stream` — so the handler's length is never announced for the encoded bytes; and
+this happens only for responses that may be encoded. -/
+theorem C13_head (encoding : Coding) (h : Head) (size : BodySize) (c : Coding)
+    (hm : (response encoding h size).2 = .encode c) :
+    c = encoding ∧ selectable c = true ∧ ¬ MustPass encoding h size ∧
+    (response encoding h size).1.status = h.status ∧
+    hGetAll (response encoding h size).1.headers "content-encoding" = [c.name] ∧
+    hGetAll (response encoding h size).1.headers "vary" = hGetAll h.headers "vary" ++ ["accept-encoding"] ∧
+    (∀ k, k ≠ "content-encoding" → k ≠ "vary" →
+      hGetAll (response encoding h size).1.headers k = hGetAll h.headers k) ∧
+    (response encoding h size).1.noChunking = false ∧
+    encSize (response encoding h size).2 size = .stream := by
+  unfold response at hm ⊢
+  split at hm
+  · simp at hm
+  · simp at hm
+  · rename_i hn h0
+    split at hm
+    · rename_i hc0
+      have hc := hc0
+      simp only [Bool.and_eq_true] at hc
+      have hce : c = encoding := by simpa using hm.symm
+      subst hce
+      rw [if_pos hc0]
+      have hse := hc.1
+      simp only [shouldEncode, Bool.not_eq_true', Bool.or_eq_false_iff, beq_eq_false_iff_ne] at hse
+      refine ⟨rfl, hc.2, ?_, rfl, ?_, ?_, ?_, rfl, rfl⟩
+      · rintro (hp | hp | hp | hp | hp | hp | hp)
+        · simp [hp] at hse
+        · exact hse.1.1.1.2 (by simp [hp])
+        · exact hse.1.1.2 (by simp [hp])
+        · exact hse.1.2 (by simp [hp])
+        · exact hn hp
+        · exact h0 hp
+        · exact hse.2 hp
+      · have : hGetAll h.headers "content-encoding" = [] := by
+          have := hse.1.1.1.1
+          simp only [hContains, List.any_eq_false, beq_iff_eq] at this
+          simp only [hGetAll, List.map_eq_nil_iff, List.filter_eq_nil_iff, beq_iff_eq]
+          exact this
+        simp [updateHead, hGetAll, hAppend, hInsert, List.filter_append, List.filter_filter]
+      · simp [updateHead, hGetAll, hAppend, hInsert, List.filter_append, List.filter_filter]
+        congr 1
+        apply List.filter_congr
+        intro x _
+        by_cases hx : x.1 = "vary" <;> simp [hx]
+      · intro k hk1 hk2
+        simp [updateHead, hGetAll, hAppend, hInsert, List.filter_append, List.filter_filter, Ne.symm hk1, Ne.symm hk2]
+        congr 1
+        apply List.filter_congr
+        intro x _
+        by_cases hx : x.1 = k <;> simp [hx, hk1]
+    · simp at hm
+
+example : (response .gzip ⟨200, [("vary", "origin")], true⟩ (.sized 10)).2 = .encode .gzip := by decide
+
+/-! ## The middleware as a whole -/
+
+/-- the bytes the handler's body stands for -/
+def handlerBytes (b : RespBody) : Bytes :=
+  match b.bytes with
+  | some bs => bs
+  | none => (chunksOf b.evs).flatten
+
+theorem chunksOf_encBodyEvs (m : Mode) (b : RespBody) (hm : m ≠ .none) (hm' : m ≠ .empty) :
+    (chunksOf (encBodyEvs m b)).flatten = handlerBytes b := by
+  unfold encBodyEvs handlerBytes
+  cases m with
+  | none => exact absurd rfl hm
+  | empty => exact absurd rfl hm'
+  | plain =>
+    cases hb : b.bytes with
+    | none => simp
+    | some bs => by_cases he : bs.isEmpty <;> simp_all [chunksOf]
+  | encode c =>
+    cases hb : b.bytes with
+    | none => simp
+    | some bs => by_cases he : bs.isEmpty <;> simp_all [chunksOf]
+
+theorem hasErr_encBodyEvs (m : Mode) (b : RespBody) (h : hasErr b.evs = false) :
+    hasErr (encBodyEvs m b) = false := by
+  unfold encBodyEvs
+  cases m <;> simp only [hasErr]
+  all_goals (cases b.bytes with
+    | none => simpa using h
+    | some bs => by_cases he : bs.isEmpty <;> simp [he, hasErr])
+
+/-- the record `compress` builds once a coding has been settled -/
+def mkResp (enc : Coding) (h : Head) (b : RespBody) : MwResp :=
+  { head := (response enc h b.size).1, mode := (response enc h b.size).2,
+    size := encSize (response enc h b.size).2 b.size, evs := encBodyEvs (response enc h b.size).2 b }
+
+theorem compress_cases (ae : AE) (h : Head) (ct : Option (String × String)) (b : RespBody) :
+    (negotiate ae supported = none ∧ compress (some ae) h ct b = notAcceptableResp) ∨
+    (∃ c0 enc, negotiate ae supported = some c0 ∧ (enc = c0 ∨ enc = .identity) ∧
+      compress (some ae) h ct b = mkResp enc h b) := by
+  cases hn : negotiate ae supported with
+  | none => left; simp [compress, mwNegotiate, hn]
+  | some c0 =>
+    right
+    by_cases hpred : compressPredicate ct = true
+    · exact ⟨c0, c0, rfl, Or.inl rfl, by simp [compress, mwNegotiate, hn, hpred, mkResp]⟩
+    · exact ⟨c0, .identity, rfl, Or.inr rfl, by simp [compress, mwNegotiate, hn, hpred, mkResp]⟩
+
+/-- **C13_compress_sound**: `Compress` around any handler response, for a request with any
+(present) Accept-Encoding `ae`, any content type, any body script without failure, any schedule,
+any split, any family of lawful codecs.  If the middleware installs a compressor for coding `cd`
+then (1) `ae` permits `cd`, (2) the response is labelled with exactly `cd` and gets
+`Vary: accept-encoding` after the handler's own values, (3) its size is `Stream`, (4) the stream
+ends and decodes to the handler's bytes. -/
+theorem C13_compress_sound (inPlace : Bytes → Bool) (codec : Coding → Codec σ)
+    (D : Coding → Bytes → Option Bytes) (hl : ∀ cd, selectable cd = true → Lossless (codec cd) (D cd))
+    (ae : AE) (h : Head) (ct : Option (String × String)) (b : RespBody) (joins : List Nat)
+    (hb : hasErr b.evs = false) (cd : Coding) (hm : (compress (some ae) h ct b).mode = .encode cd) :
+    permits ae cd ∧
+    hGetAll (compress (some ae) h ct b).head.headers "content-encoding" = [cd.name] ∧
+    hGetAll (compress (some ae) h ct b).head.headers "vary" = hGetAll h.headers "vary" ++ ["accept-encoding"] ∧
+    (compress (some ae) h ct b).size = .stream ∧
+    ∀ fuel, fuelFor (initEnc (codec cd) (.encode cd)) (compress (some ae) h ct b).evs joins ≤ fuel →
+      D cd (outChunks (driveAt inPlace (codec cd) fuel (initEnc (codec cd) (.encode cd))
+        (compress (some ae) h ct b).evs joins)).flatten = some (handlerBytes b) ∧
+      (driveAt inPlace (codec cd) fuel (initEnc (codec cd) (.encode cd))
+        (compress (some ae) h ct b).evs joins).getLast? = some .done := by
+  rcases compress_cases ae h ct b with ⟨_, hc⟩ | ⟨c0, enc, hn, henc, hc⟩
+  · rw [hc] at hm; simp [notAcceptableResp] at hm
+  · rw [hc] at hm ⊢
+    simp only [mkResp] at hm ⊢
+    obtain ⟨hcd, hsel, hnp, _, hce, hvary, _, _, hsz⟩ := C13_head enc h b.size cd hm
+    subst hcd
+    have hperm : permits ae cd := by
+      rcases henc with rfl | rfl
+      · exact C13_negotiate_permitted ae supported _ hn
+      · exact absurd (by simp [MustPass]) hnp
+    refine ⟨hperm, hce, hvary, hsz, ?_⟩
+    intro fuel hf
+    rw [hm] at hf ⊢
+    have := C13_stream_lossless inPlace (codec cd) (D cd) (hl cd hsel) cd
+      (encBodyEvs (.encode cd) b) joins (hasErr_encBodyEvs _ b hb) fuel hf
+    rw [chunksOf_encBodyEvs _ b (by simp) (by simp)] at this
+    exact this
+
+/-- …and when no compressor is installed the response is the 406 answer or carries the handler's
+own head (and, by `C13_passthrough_stream`, the handler's own chunks). -/
+theorem C13_compress_untouched (ae : Option AE) (h : Head) (ct : Option (String × String)) (b : RespBody)
+    (hm : ∀ cd, (compress ae h ct b).mode ≠ .encode cd) :
+    (compress ae h ct b).head = h ∨ (compress ae h ct b) = notAcceptableResp := by
+  have key : ∀ enc, (∀ cd, (mkResp enc h b).mode ≠ .encode cd) → (mkResp enc h b).head = h := by
+    intro enc hne
+    simp only [mkResp] at hne ⊢
+    unfold response at hne ⊢
+    split
+    · rfl
+    · rfl
+    · split
+      · rename_i hc; simp [hc] at hne
+      · rfl
+  cases ae with
+  | none =>
+    left
+    have hp := C13_passthrough .identity h b.size (by simp [MustPass])
+    unfold compress mwNegotiate
+    by_cases hpred : compressPredicate ct = true <;> simp [hpred, hp.1]
+  | some ae =>
+    rcases compress_cases ae h ct b with ⟨_, hc⟩ | ⟨c0, enc, _, _, hc⟩
+    · exact Or.inr hc
+    · rw [hc] at hm ⊢; exact Or.inl (key enc hm)
+
+/-- no Accept-Encoding header ⇒ nothing is encoded, whatever the handler answers -/
+theorem C13_no_header_no_encoding (h : Head) (ct : Option (String × String)) (b : RespBody) :
+    (compress none h ct b).head = h ∧ ∀ c, (compress none h ct b).mode ≠ .encode c := by
+  have hp := C13_passthrough .identity h b.size (by simp [MustPass])
+  unfold compress mwNegotiate
+  simp only
+  by_cases hpred : compressPredicate ct = true
+  · simp only [hpred, ↓reduceIte]; exact ⟨hp.1, hp.2.1⟩
+  · simp only [hpred, Bool.false_eq_true, ↓reduceIte]; exact ⟨hp.1, hp.2.1⟩
+
 end ActixModel.C13
